@@ -78,8 +78,11 @@ def read_returns_decoded(ctx, rule: str):
     def leaves(x):
         x = strip(x)
         return leaves(x[2]) + leaves(x[3]) if x[0] == "ite" else [x]
-    rd_ok = len(rt) == 1 and call_is(strip(rt[0]), "msmart.lan._Packet.decode") and \
-        all(y[0] == "await" and meth_is(strip(y[1]), "read") for y in leaves(strip(rt[0])[2][-1]))          # (whichever way the timeout is passed on)
+    r0 = strip(rt[0]) if len(rt) == 1 else None
+    if r0 is not None and r0[0] == "attr" and call_is(strip(r0[1]), "msmart.lan._Packet.decode"):
+        r0 = strip(r0[1])          # (decode hands back a record: _read takes its frame field)
+    rd_ok = r0 is not None and call_is(r0, "msmart.lan._Packet.decode") and \
+        all(y[0] == "await" and meth_is(strip(y[1]), "read") for y in leaves(r0[2][-1]))          # (whichever way the timeout is passed on)
     ctx.ob(rule, rd.qual, rd_ok, "_read returns _Packet.decode(await protocol.read())", func=rd.qual, file=rd.module.rel, construct="_read", fail="_read does not return the decoded packet it read")
     return rd_ok
 
@@ -160,3 +163,29 @@ def write_reaches_wire(ctx, rule: str, parts=("v2", "v3")):
     ctx.ob(rule, w3.qual, ok3, "_LanProtocolV3.write sends the encrypted-request encoding for data and the handshake encoding for the handshake", func=w3.qual,
            file=w3.module.rel, construct="super().write(packet)", detail=detail,
            fail=f"_LanProtocolV3.write does not hand the encoder selected by the packet type to the transport write ({detail}): data or handshake packets go out in the wrong framing / not at all")
+
+
+def decode_returns(prog, s):
+    """The returns of _Packet.decode as (pc, frame term, node, state).  When decode hands back a record (a NamedTuple / dataclass of the package,
+    e.g. (length, frame)), the frame is the field LAN._read takes from it; the other fields are bookkeeping, not plaintext."""
+    out = []
+    field = None
+    rd = prog.funcs.get(f"{LAN}._read")
+    if rd is not None:
+        for _pc, t, n, _st in summarize(prog, rd).returns:
+            t0 = strip(t)
+            if n is not None and t0[0] == "attr" and call_is(strip(t0[1]), "msmart.lan._Packet.decode"):
+                field = t0[2]
+    for pc, t, n, st in s.returns:
+        t0 = strip(t)
+        if n is not None and field is not None and t0[0] == "call" and t0[1][0] == "func" and t0[1][1] in prog.classes:
+            c = prog.classes[t0[1][1]]
+            rf = prog.record_fields(c)
+            if rf is not None:
+                vals = {f: v for (f, _d), v in zip(rf, t0[2])}
+                vals.update({k: v for k, v in t0[3] if isinstance(k, str)})
+                if field in vals:
+                    out.append((pc, vals[field], n, st))
+                    continue
+        out.append((pc, t, n, st))
+    return out
